@@ -325,4 +325,6 @@ def run(ctx):
             r07_4(ctx, fx)
             r07_6(ctx, fx)
             r07_7(ctx, fx)
+    from common import check_no_dropped_futures
+    check_no_dropped_futures(ctx, ctx.facts("default"), "R07.9", r"^protocol::protocol_set::ProtocolSet::\w+::\{closure#0\}(::\{closure#\d+\})*$", "ProtocolSet", 4)
     ctx.assume("cancellation of the connection task (executor shutdown) is not an exit")
